@@ -44,14 +44,19 @@ def tmpdir():
 ODD_DIRS = ["rep[2]", "two words", "x*y", "q?", "\u00fcn\u00ef", "[ab]", "{a,b}", "100%", "-dash", "dot.d"]
 
 
-def fresh(name="f.h5", odd=None):
+def fresh(name="f.h5", odd=None, own_dir=False):
     """a fresh scratch path; with odd=<int> the file lies in a sub-directory whose name holds glob characters, spaces or
-    non-ASCII letters (all legal in file names: code that globs, splits or re-encodes a path shows here)"""
+    non-ASCII letters (all legal in file names: code that globs, splits or re-encodes a path shows here); with own_dir the file
+    is called exactly `name` and lies in a directory of its own (run_a/thetas.h5, run_b/thetas.h5: equal base names)"""
     _counter[0] += 1
     d = tmpdir()
     if odd is not None:
         d = os.path.join(d, ODD_DIRS[int(odd) % len(ODD_DIRS)])
         os.makedirs(d, exist_ok=True)
+    if own_dir:
+        d = os.path.join(d, "run_%d" % _counter[0])
+        os.makedirs(d, exist_ok=True)
+        return os.path.join(d, name)
     return os.path.join(d, "%d_%s" % (_counter[0], name))
 
 
